@@ -10,6 +10,7 @@ CONSTANTS
   LateRoutes = {}
   Stall = FALSE
   MaxConn = 1
+  MaxCancel = 2
   MaxClock = 3
   ReplyKinds = {"r200", "r400", "silence"}
   Allowed = {}
@@ -24,5 +25,6 @@ INVARIANT ExactlyOneCommand
 INVARIANT RoutesOncePerConnection
 INVARIANT NoStrandedWaiter
 INVARIANT SemHolderOk
+INVARIANT CancelReleases
 INVARIANT NothingBad
 CHECK_DEADLOCK FALSE
